@@ -21,6 +21,8 @@ DEST_STATES = {
     "file_suid": ("d", [dict(t="f", p="d", c=b"hello\n", m=0o4755)]),
     "file_same_640": ("d", [dict(t="f", p="d", c=b"hello\n", m=0o640)]),
     "dir": ("d", [dict(t="d", p="d", m=0o755)]),
+    "dir_sgid_sticky": ("d", [dict(t="d", p="d", m=0o3775)]),
+    "file_sgid": ("d", [dict(t="f", p="d", c=b"hello\n", m=0o2644)]),
     "dir_full": ("d", [dict(t="d", p="d", m=0o750), dict(t="f", p="d/inner", c=b"x", m=0o644)]),
     "link_file": ("d", [dict(t="f", p="tf", c=b"other", m=0o640), dict(t="l", p="d", to="tf")]),
     "link_dir": ("d", [dict(t="d", p="td", m=0o755), dict(t="l", p="d", to="td")]),
@@ -53,8 +55,8 @@ CONTENTS = ["hello\n", "", "no newline", "café ✓\n", "nul\x00inside\n"]
 MODES = [None, "0644", "644", "0600", "0444", "4755", "2750", "1777", "7777", "0000", "000",
          "preserve", "abc", "99", "07777", "é75", "+644", "8644"]
 FILE_MODES = [m for m in MODES if m != "preserve"]
-MODES_Q = [None, "0644", "0600", "0444", "4755", "1777", "0666", "preserve", "abc"]
-FILE_MODES_Q = [None, "0644", "0600", "4755", "2750", "99", "0664", "1777"]
+MODES_Q = [None, "0644", "0600", "0444", "4755", "1777", "0666", "preserve", "abc", "755"]
+FILE_MODES_Q = [None, "0644", "0600", "4755", "2750", "99", "0664", "1777", "755", "644"]
 FILE_STATES = ["absent", "directory", "file", "touch", None]
 
 
@@ -116,7 +118,9 @@ def task_yaml(t, check_kw):
         if t["upgrade"]:
             lines.append("  upgrade: true")
         lines.append("register: reg")
-    if check_kw:
+    if check_kw == "false":
+        lines.append("check_mode: false")      # with --check on the command line the task is STILL in check mode
+    elif check_kw:
         lines.append("check_mode: true")
     return "\n".join(lines) + "\n"
 
@@ -190,8 +194,9 @@ def impl_case(nodes, tasks, check, stamps):
         if "c" in d:
             d["c"] = d["c"].hex()
         world.append(d)
-    return dict(world=world, umask=UMASK, global_check=(check == "global"),
-                tasks=[task_yaml(t, check == "task") for t in tasks], vars=V_VARS,
+    # check in none | global | task | global_kwfalse (command-line check mode AND the task keyword `check_mode: false`)
+    return dict(world=world, umask=UMASK, global_check=(check in ("global", "global_kwfalse")),
+                tasks=[task_yaml(t, "false" if check == "global_kwfalse" else check == "task") for t in tasks], vars=V_VARS,
                 sleep_ms=(6 if stamps else 0))
 
 
